@@ -11,7 +11,7 @@ import numpy as np
 import torch
 
 from core import Ctx, Violation, err_name, line, ok_tensor, tensor_groups
-from props.c10_prims import _layout
+from props.c10_prims import NP_LAYOUTS, _layout, _np_layout
 
 PROP = "C10"
 EXTRA_LEAN_MODULES = ["DirectVerif.Lemmas.TensorLiftC10",   # n-D corollaries (lifting laws of alongAxis)
@@ -170,8 +170,11 @@ def correspondence(ctx: Ctx):
         coords = [rng.randint(-3, n - 1) for n in shape]
         size = [rng.randint(1, n + 3) for n in shape]
         sh, d = tensor_groups(x)
+        lay = rng.choice(NP_LAYOUTS)
+        xl = _np_layout(x, lay)              # same logical array: negative strides, Fortran order, byte-swapped, read-only, …
         yield {"line": line("bbox", sh, d, coords + size, [0]),
-               "impl": _impl(lambda x=x, b=coords + size: crop_to_bbox(x, b)), "nontrivial": True, "bucket": "bbox/numpy"}
+               "impl": _impl(lambda x=xl, b=coords + size: np.ascontiguousarray(crop_to_bbox(x, b)).astype(np.int64)),
+               "nontrivial": True, "bucket": "bbox/numpy" + ("" if lay == "plain" else "/" + lay)}
     # ---- pad_tensor
     for _ in range(ctx.budget(150, 2500)):
         k = rng.choice([2, 2, 3])
